@@ -19,6 +19,7 @@ package main
 
 import (
 	"fmt"
+	"math"
 	"os"
 	"regexp"
 	"strconv"
@@ -708,7 +709,27 @@ func execExotic(e *env, op *Op, out *Outcome) {
 	vals := []interface{}{px, &px, nilp, es, *es, es.C, es.F, es.M, es.A, es.S, nilm, nilf, nilc,
 		unsafe.Pointer(px), uintptr(9), [2][]int{{1}, nil}, map[interface{}]interface{}{1: "a", "b": 2.5},
 		struct{ X, y interface{} }{px, es}, &[]int{1, 2}, []interface{}{nil, px, es.C}, complex64(1 + 2i), [0]int{},
-		redact.Safe(px), redact.Unsafe(es), redact.Safe(es.M)}
+		redact.Safe(px), redact.Unsafe(es), redact.Safe(es.M),
+		// maps with keys of mixed and unusual kinds (sorted by fmtsort), deep
+		// nesting, empty and nil containers inside structs
+		map[interface{}]int{1: 1, "a": 2, 2.5: 3, true: 4, [2]int{1, 2}: 5, struct{ A int }{3}: 6, math.NaN(): 7, math.Inf(-1): 8, nil: 9, int8(1): 10, uint(1): 11},
+		map[float64]string{math.NaN(): "x", math.Copysign(0, -1): "y", 0: "z"},
+		map[bool]interface{}{true: nil, false: map[string]interface{}{"n": []interface{}{map[int][]string{1: {"d", "e"}}}}},
+		[]interface{}{[]interface{}{[]interface{}{[]interface{}{[]interface{}{map[string][]int{"k": nil}}}}}},
+		struct {
+			M map[string]int
+			S []string
+			I interface{}
+			E error
+			F fmt.Stringer
+		}{},
+		map[[2]bool]struct{}{{true, false}: {}, {false, false}: {}}, map[string]int(nil), []int(nil), [3][]map[int]int{},
+		map[struct {
+			Tag interface{}
+			N   int
+		}]string{{nil, 1}: "a", {nil, 2}: "b", {"t", 1}: "c", {3, 1}: "d"},
+		map[[2]interface{}]int{{nil, "x"}: 1, {nil, "y"}: 2, {nil, nil}: 3, {1, nil}: 4},
+		map[interface{}]interface{}{[1]interface{}{nil}: nil, struct{ E error }{}: 1, struct{ E error }{fmt.Errorf("e")}: 2}}
 	verbs := []string{"%v", "%+v", "%#v", "%d", "%x", "%p", "%s", "%T", "%q", "%08.3v", "%-9d", "%U", "%c", "%t", "%e"}
 	k := op.N
 	if k < 0 {
